@@ -418,4 +418,87 @@ theorem downBits_val (b : Nat) (hb : b < 2 ^ 64) (hfin : b / 2 ^ 52 % 2 ^ 11 ≠
       subst he'
       simp [div_eq_mul_inv]
 
+theorem Rnd.sgn {spec : Format} {R V : ℚ} (s : Sign) (h : Rnd spec R V) : Rnd spec (sgnQ s * R) (sgnQ s * V) := by
+  obtain ⟨te, h1, h2, h3⟩ := h
+  refine ⟨te, h1, ?_, ?_⟩
+  · rw [← mul_sub, abs_mul, sgnQ_abs, one_mul]; exact h2
+  · rw [abs_mul, sgnQ_abs, one_mul]; exact h3
+
+theorem down_unpack (y : Float) (hy : y.isFinite = true) (h : (Cvt.down y : Float32).isFinite = true) :
+    (Cvt.down y : Float32).toModel.unpack = FM.unpackNat 23 8 (downBits y.toBits.toNat) ∧
+    downBits y.toBits.toNat / 2 ^ 23 % 2 ^ 8 ≠ 255 := by
+  have hb := y.toBits.toNat_lt
+  obtain ⟨hf, _⟩ := toRat_bits y hy
+  obtain ⟨hlt, _, _, s4⟩ := FB.downBits_spec _ hb
+  have hnn : downBits y.toBits.toNat % 2 ^ 31 ≤ 0x7F800000 := by
+    generalize downBits y.toBits.toNat = u at *
+    generalize y.toBits.toNat = b at *
+    omega
+  have ht : (UInt32.ofNat (downBits y.toBits.toNat)).toNat = downBits y.toBits.toNat := by
+    rw [UInt32.toNat_ofNat', Nat.mod_eq_of_lt hlt]
+  have hun : (Cvt.down y : Float32).toModel.unpack = FM.unpackNat 23 8 (downBits y.toBits.toNat) := by
+    rw [FB.down_eq, FM.float32_unpack_ofBits _ (by rw [ht]; exact hnn), ht]
+  refine ⟨hun, ?_⟩
+  have h' : (Cvt.down y : Float32).toModel.unpack.isFinite = true := h
+  rw [hun, unpackNat_isFinite] at h'
+  exact h'
+
+/-- **the representation behind `down_rnd`**: `y = ± V`, `y as f32 = ± R` with the SAME sign, `V, R ≥ 0`, `R` is `V`
+correctly rounded to binary32, and `R = 0` when `V = 0`. -/
+theorem down_repr (y : Float) (hy : y.isFinite = true) (h : (Cvt.down y : Float32).isFinite = true) :
+    ∃ (s : Sign) (V R : ℚ), 0 ≤ V ∧ 0 ≤ R ∧ (V = 0 → R = 0) ∧ toRat y = sgnQ s * V ∧
+      toRat32 (Cvt.down y : Float32) = sgnQ s * R ∧ Rnd32 R V := by
+  have hb := y.toBits.toNat_lt
+  obtain ⟨hf, hv⟩ := toRat_bits y hy
+  obtain ⟨hun, hf'⟩ := down_unpack y hy h
+  obtain ⟨d1, d2, d3⟩ := downBits_val _ hb hf hf'
+  refine ⟨FM.signOf (y.toBits.toNat / 2 ^ 63), _, _, ?_, ?_, ?_, ?_, ?_, d3⟩
+  · exact mul_nonneg (Nat.cast_nonneg _) (two_zpow_pos _).le
+  · exact mul_nonneg (Nat.cast_nonneg _) (two_zpow_pos _).le
+  · intro hV
+    have hm : (decompose fmt64 (y.toBits.toNat % 2 ^ 63)).1 = 0 := by
+      rcases mul_eq_zero.mp hV with h0 | h0
+      · exact_mod_cast h0
+      · exact absurd h0 (two_zpow_pos _).ne'
+    have hmag : y.toBits.toNat % 2 ^ 63 = 0 := by
+      by_contra hc
+      have := (decompose_facts fmt64 (by decide) _ (Nat.pos_of_ne_zero hc)).1
+      omega
+    rw [d2 hmag, decompose32_sub 0 (by decide)]
+    simp
+  · rw [hv, mul_assoc]
+  · unfold toRat32
+    rw [hun, uval_unpackNat32 _ hf', d1, mul_assoc]
+
+/-- **`f64 → f32` is ONE correct rounding**: for a finite double `y` whose conversion does not overflow,
+`toRat32 (y as f32)` is `toRat y` rounded once to binary32 (half an ulp; relative error `2⁻²⁴` in the normal range
+`|y| ≥ 2⁻¹²⁶`, absolute error `2⁻¹⁵⁰` below: `Rnd32.rel`, `Rnd32.abs_add`). -/
+theorem down_rnd (y : Float) (hy : y.isFinite = true) (h : (Cvt.down y : Float32).isFinite = true) :
+    Rnd32 (toRat32 (Cvt.down y : Float32)) (toRat y) := by
+  obtain ⟨s, V, R, _, _, _, h1, h2, h3⟩ := down_repr y hy h
+  rw [h1, h2]; exact Rnd.sgn s h3
+
+/-- the conversion keeps the sign: `0 ≤ y ⟹ 0 ≤ y as f32` on values. -/
+theorem down_nonneg_val (y : Float) (hy : y.isFinite = true) (h : (Cvt.down y : Float32).isFinite = true)
+    (h0 : 0 ≤ toRat y) : 0 ≤ toRat32 (Cvt.down y : Float32) := by
+  obtain ⟨s, V, R, hV, hR, hz, h1, h2, _⟩ := down_repr y hy h
+  rw [h2]
+  cases s with
+  | positive => simp only [sgnQ, one_mul]; exact hR
+  | negative =>
+    simp only [sgnQ] at h1 ⊢
+    have : V = 0 := by rw [h1] at h0; linarith
+    rw [hz this]; simp
+
+theorem down_nonpos_val (y : Float) (hy : y.isFinite = true) (h : (Cvt.down y : Float32).isFinite = true)
+    (h0 : toRat y ≤ 0) : toRat32 (Cvt.down y : Float32) ≤ 0 := by
+  obtain ⟨s, V, R, hV, hR, hz, h1, h2, _⟩ := down_repr y hy h
+  rw [h2]
+  cases s with
+  | positive =>
+    simp only [sgnQ, one_mul] at h1 ⊢
+    have : V = 0 := by rw [h1] at h0; linarith
+    rw [hz this]
+  | negative => simp only [sgnQ]; linarith
+
 end Rosu.FErr
